@@ -226,10 +226,20 @@ def StageReference(dataReference,  # type: experiment.model.graph.DataReference
                 #(due to charactwise matching performed)
                 target = os.path.join(os.path.realpath(dest), '')
                 for f in tar.getmembers():
-                    newPath = os.path.join(location.path, f.name)
-                    #if target includes / then commonprefix will include it
-                    if os.path.commonprefix([target, newPath]) != target:
-                        raise tarfile.ReadError('Archive contains files that would be extracted outside of destination')
+                    # Normalise the path of the member (../ segments) and the target of any link it carries
+                    # before checking that they stay under target
+                    memberPaths = [os.path.join(target, f.name)]
+                    if f.issym():
+                        memberPaths.append(os.path.join(os.path.dirname(memberPaths[0]), f.linkname))
+                    elif f.islnk():
+                        memberPaths.append(os.path.join(target, f.linkname))
+
+                    for newPath in memberPaths:
+                        newPath = os.path.join(os.path.normpath(newPath), '')
+                        #if target includes / then commonprefix will include it
+                        if os.path.commonprefix([target, newPath]) != target:
+                            raise tarfile.ReadError(
+                                'Archive contains files that would be extracted outside of destination')
 
                 tar.extractall(dest)
                 tar.close()
